@@ -36,6 +36,7 @@ static _Atomic int child_alive;
 static int ch_ann[2] = { -1, -1 }, ch_ack[2] = { -1, -1 };
 static _Atomic int ch_announced, ch_acked, ch_target = -1;
 static int64_t ch_stuck_since;
+static int ch_stuck_acked;
 static _Atomic long child_posts_acked, child_posts_lost;
 static int g_burst, bursts_done;
 
@@ -184,8 +185,11 @@ void hk_ext_stuck(void)
 		ch_stuck_since = 0;
 		return;
 	}
-	if (ch_stuck_since == 0) {
+	/* the clock runs for one particular announcement: the one that follows the last acknowledged post (two unrelated glimpses of
+	 * announcements in flight, a second apart, are not a post that has been waiting for a second) */
+	if (ch_stuck_since == 0 || ch_stuck_acked != atomic_load(&ch_acked)) {
 		ch_stuck_since = now;
+		ch_stuck_acked = atomic_load(&ch_acked);
 		return;
 	}
 	if (now - ch_stuck_since < 1000000000LL)
